@@ -47,6 +47,7 @@ namespace Givaro {
             while (! _seed) {
                 _seed = (uint64_t)BaseTimer::seed();
             }
+            _seed = (_seed - 1) % (_GIVRAN_MODULO_ - 1) + 1;
         }
 
         GivRandom(const GivRandom& R) :
